@@ -200,11 +200,12 @@ def main(tier, seed, repo, replay_file):
                 "assumptions": ["Miri's data-race detector and ThreadSanitizer are happens-before based: a race is reported as soon as both accesses are executed without ordering, whatever the schedule",
                                 "schedules are sampled (Miri seeds, OS scheduling), not enumerated"],
                 "wall_s": round(time.time() - t0, 2), "violations": len(violations)}
-    os.makedirs(os.path.join(VERIF, "evidence"), exist_ok=True)
-    json.dump(evidence, open(os.path.join(VERIF, "evidence", "C20.json"), "w"), indent=1)
+    evdir = os.path.join(VERIF, "evidence") if repo == "/repo" else os.path.join(VERIF, ".build", "evidence-other-tree")
+    os.makedirs(evdir, exist_ok=True)
+    json.dump(evidence, open(os.path.join(evdir, "C20.json"), "w"), indent=1)
     rc = 0
     if violations:
-        rdir = os.path.join(VERIF, "evidence", "replay"); os.makedirs(rdir, exist_ok=True)
+        rdir = os.path.join(evdir, "replay"); os.makedirs(rdir, exist_ok=True)
         for n, v in enumerate(violations[:20]):
             path = os.path.join(rdir, f"C20-{n}.json")
             json.dump({"property": "C20", "tool": v["tool"], "what": v["what"], "cmd": v["cmd"], "cwd": v["cwd"], "flags": "-Zsanitizer=thread" if v["tool"] == "tsan" else ""}, open(path, "w"), indent=1)
